@@ -170,6 +170,16 @@ CHECKS = {
         "compares document count, ids, token ids, re-serialised bytes and (for built documents) token values.",
         "Documents are sampled; the default constants table cannot be expressed on the wire and is outside; value equality computed by the harness.",
     ),
+    "C16": (
+        "DESIGN.md 5/C16",
+        "TLC judges TMS / ARS messages built with the real classes against a complete TLA+ serialiser and the length rule (MotorolaMsg.tla)",
+        "The TMS and ARS formats (length rule, header bit fields, sequence-number / encoding header chain, length-value fields, second headers, "
+        "CSBK trailer) are written as a serialiser in TLA+; for all sequence numbers 0..127 x encodings x flags x address and text lengths and "
+        "all implemented ARS PDU types x flags x field lengths x events x refresh times x failure reasons x trailer, the library builds, "
+        "serialises, parses and re-serialises; TLC checks the leading length, field equality, byte fixed point and compares the octets with "
+        "its own serialisation.",
+        "Field projection and the documented normalisations are in the harness (small); text contents sampled.",
+    ),
 }
 
 NOT_YET = {}
